@@ -41,6 +41,11 @@ def scenario(extra=None, name="all-ops"):
     fs += [o1, o2]
     return SC(name, fs, ["s"], "d", extra=["--block-size", "1000", "--fsync"] + (extra or []), cls="faults")
 
+def scenario_one():
+    e = E("s", "file", "C4-one", m=0o600, t="1400000000111111111")
+    e["meta"]["data"] = bytes(range(1, 200)) * 25
+    return SC("one-file", [e], ["s"], "d", r=False, extra=["--fsync"], cls="faults")
+
 def run(ctx):
     binary = build.xcp()
     quick = ctx.tier == "quick"
@@ -74,12 +79,26 @@ def run(ctx):
             for when in range(1, (8 if quick else 30) + 1):
                 for err in ["EIO"] if quick else ["EIO", "ENOSPC"]:
                     jobs.append((drv, w, "copy_file_range", err, when, "cfr.max=300"))
+    # second configuration: --ownership, so that the tolerated fchown failure is exercised together with what must follow it
+    sc_own = scenario(extra=["--ownership"], name="all-ops-ownership")
+    for drv in ("parfile", "parblock"):
+        for sysc in ("fchown", "fsetxattr", "fchmod", "utimensat", "fsync"):
+            for when in range(1, (6 if quick else 20) + 1):
+                jobs.append((drv, 2, sysc, ERRNOS[sysc][0], when, "OWN"))
+    # third: one single-block file, every finalisation call of one kind failing, repeated: whichever thread ends up
+    # holding the last reference to the handle has to report the failure
+    sc_one = scenario_one()
+    for rep in range(40 if quick else 300):
+        for sysc in ("fsync", "fchmod", "utimensat"):
+            jobs.append(("parblock", [1, 2, 4, 8][rep % 4], sysc, "EIO", 0, "ONE%d" % rep))
     ctx.notes["syscall_profile(max per thread)"] = profiles
     def one(j):
         drv, w, sysc, err, when, plan = j
-        rid = "c04-%s-w%d-%s-%s-%d%s" % (drv, w, sysc, err, when, "-short" if plan else "")
-        o = nsplane.run_one(binary, sc, drv, rid, workers=w, keep=True, timeout=90, env={"XCP_VERIF_PLAN": plan} if plan else None,
-                            strace={"trace": TRACE, "inject": ["%s:error=%s:when=%d" % (sysc, err, when)]})
+        rid = "c04-%s-w%d-%s-%s-%d%s" % (drv, w, sysc, err, when, "-" + plan.replace("=", "") if plan else "")
+        the_sc = sc_own if plan == "OWN" else (sc_one if plan and plan.startswith("ONE") else sc)
+        env = {"XCP_VERIF_PLAN": plan} if plan and plan.startswith("cfr") else None
+        inj_spec = "%s:error=%s:when=%d" % (sysc, err, when) if when > 0 else "%s:error=%s" % (sysc, err)
+        o = nsplane.run_one(binary, the_sc, drv, rid, workers=w, keep=True, timeout=90, env=env, strace={"trace": TRACE, "inject": [inj_spec]})
         inj = []
         try:
             with open(o["_run"]["trace"], errors="replace") as f:
@@ -107,6 +126,8 @@ def run(ctx):
         if o["exit"] != 0 or not o["_run"]["injected"]:
             continue
         before = {tuple(e["p"]): e for e in o["before"]}; after = {tuple(e["p"]): e for e in o["after"]}
+        if j[5] and j[5].startswith("ONE"):
+            continue
         for e in files:
             s = before.get(tuple(e["p"])); d = after.get(("d",) + tuple(e["p"]))
             if s is None or d is None:
@@ -135,6 +156,8 @@ def run(ctx):
             why = []
             if "C02" in nv["viol"]:
                 why.append("destination tree differs from the expected one")
+            if plan and plan.startswith("ONE"):
+                why.append("every %s on the destination failed, yet the run reports success" % sysc)
             if "C18" in ev["viol"] and sysc not in ():
                 why.append("no successful fsync after the last write of " + ",".join(ev["unsynced"][:3]))
             if why:
